@@ -14,7 +14,7 @@ def run(ctx):
                                 dict(module_rel="list/MichaelListMC.tla", cfg_rel="list/MichaelList_bad_norecheck.cfg", workers=4, expect_violation="LinOK")], par=2)
     q = ctx.quick()
     n = 1 if q else 8
-    deep = [("dfs", 4000 if q else 300000, 2 if q else 3)]
+    deep = [("dfs", 2500 if q else 300000, 2 if q else 3)]
     jobs = []
     for (vs, grp, voc, progs, dp) in ((STD, "std", SC.VOC_FULL, SC.PROGRAMS, SC.DEEP), (ITER, "iter", SC.VOC_FULL, SC.PROGRAMS, SC.DEEP), (NOGC, "nogc", SC.VOC_NOGC, SC.PROGRAMS_NOGC, SC.DEEP_NOGC)):
         ps = progs + [SC.gen_program(ctx.rng, voc) for _ in range(n)]
